@@ -72,6 +72,9 @@ def run_entries(ctx, entries, archs, unwind=None, timeout=1500, witness_for=(3, 
     burst = burst or (2 if ctx.quick() else 4)
     slots = 2 * burst
     unwind = unwind or (2 * burst + 2)
+    # GET_NEXT_JOB/QUEUE_SIZE/GET_NEXT_BURST are cheap and their wrap handling needs room (request > free space while the free
+    # region straddles the end of the array needs burst >= 3): they always run on a 16-slot ring
+    big = {5: 8, 6: 8}
     ctx.bounds.update({'ring_slots': slots, 'IMB_MAX_BURST_SIZE(patched copy)': burst, 'cbmc_unwind': unwind,
                        'pre_state': 'ANY ring state satisfying invariant R (arbitrary earliest/next, arbitrary statuses, arbitrary stale errno)',
                        'case_split': 'burst entry points: one query per (next_job slot, burst size); all else symbolic in each query'})
@@ -88,9 +91,9 @@ def run_entries(ctx, entries, archs, unwind=None, timeout=1500, witness_for=(3, 
     work = []
     for a in archs:
         for e in entries:
-            for sp in splits(e, slots, burst):
+            for sp in splits(e, 2 * big.get(e, burst), big.get(e, burst)):
                 if desc:
-                    for k0 in range(slots):
+                    for k0 in range(2 * big.get(e, burst)):
                         work.append((a, e, False, sp + (k0,)))
                 else:
                     work.append((a, e, False, sp + (-1,)))
@@ -100,15 +103,15 @@ def run_entries(ctx, entries, archs, unwind=None, timeout=1500, witness_for=(3, 
 
     def one(w):
         a, e, wit, (n0, e0, nj, k0) = w
-        base = build_base(ctx, e, a, wit, burst, desc, other)
+        base = build_base(ctx, e, a, wit, big.get(e, burst), desc, other)
         q = link_cfg(ctx, base, n0, e0, nj, k0)
         nm = '%sring step%s %s [%s]%s' % ('WITNESS ' if wit else '', (' +descriptor snapshot' if desc else '') + (' +second manager untouched' if other else ''), ENTRIES[e], a,
                                         ('' if n0 < 0 else ' next_job=slot %d%s' % (n0, '' if nj < 0 else ', n_jobs=%d' % nj)) + ('' if k0 < 0 else ' snapshot slot %d' % k0))
-        res, fails, log = cbmc(ctx, q, nm, unwind=unwind, timeout=timeout, expect='violated' if wit else 'discharged', trace=not wit)
+        res, fails, log = cbmc(ctx, q, nm, unwind=(2 * big[e] + 2) if e in big else unwind, timeout=timeout, expect='violated' if wit else 'discharged', trace=not wit)
         return w, res, fails, log
 
     # compile the bases first (one per entry/arch), in parallel, then the queries
-    pool_map(lambda k: build_base(ctx, k[1], k[0], k[2], burst, desc, other), sorted(set((w[0], w[1], w[2]) for w in work)), workers=NCPU)
+    pool_map(lambda k: build_base(ctx, k[1], k[0], k[2], big.get(k[1], burst), desc, other), sorted(set((w[0], w[1], w[2]) for w in work)), workers=NCPU)
     seen = set()
     for r in pool_map(one, work, workers=NCPU):
         if isinstance(r, Exception):
